@@ -456,6 +456,34 @@ func C03(c *core.Ctx) {
 	// ... and everything ShrinkLength writes lies inside the buffer it returns: for a
 	// return of buf[d:] every header write that can precede it goes to buf[d+…:]
 	if sh := c.Fn("R3.4", "std/encoding", "", "ShrinkLength"); sh != nil {
+		// the value stays where it is: MakeData / MakeInterest have handed out slices of the
+		// buffer before the outer length is shrunk (the signed portion, the name whose digest
+		// component is patched) — a shrink that moves the value instead of the header leaves
+		// them pointing at shifted bytes
+		{
+			moved := ""
+			core.Instrs(sh, func(in ssa.Instruction) {
+				cl, ok := isBuiltinCall(in, "copy")
+				if !ok || len(cl.Call.Args) != 2 {
+					return
+				}
+				root := func(v ssa.Value) ssa.Value {
+					for i := 0; i < 6; i++ {
+						switch y := core.Strip(v).(type) {
+						case *ssa.Slice:
+							v = y.X
+							continue
+						}
+						break
+					}
+					return core.Strip(v)
+				}
+				if len(sh.Params) > 0 && root(cl.Call.Args[0]) == ssa.Value(sh.Params[0]) && root(cl.Call.Args[1]) == ssa.Value(sh.Params[0]) {
+					moved = c.Pos(in)
+				}
+			})
+			c.Decide(moved == "", "R3.4", "shrink-keeps-value-in-place", p.Pos(sh.Pos()), "ShrinkLength rewrites the header only", "ShrinkLength moves the value inside the buffer (copy at "+moved+") when the Length gets shorter: the slices MakeData / MakeInterest took before the shrink — the signed portion they return, the name whose digest component they patch — then point at bytes that have moved; what decoding the packet yields as signed portion is no longer what the encoder reports as signed")
+		}
 		buf := ssa.Value(sh.Params[0])
 		var sum func(v ssa.Value, d int) []ssa.Value
 		sum = func(v ssa.Value, d int) []ssa.Value {
